@@ -36,9 +36,10 @@ type Options struct {
 	Weights         Weights
 	TermDuration    uint32 // 0: production value
 	InterimDuration uint32
-	MaxCandidates   int // 0: production value (20)
-	DeputyCount     int // configured maximum number of deputies (0: 17)
+	MaxCandidates   int     // 0: production value (20)
+	DeputyCount     int     // configured maximum number of deputies (0: 17)
 	Funding         []int64 // whole LEMO per user in block 1 (nil: Funding)
+	FundDeputies    bool    // also give every deputy's miner and income account some LEMO (around the 200 LEMO vote boundary) and let them act
 }
 
 // NewScenario builds the world (d deputies, len(Funding) users), both nodes, and mines + validates the funding block.
@@ -76,6 +77,12 @@ func NewScenarioWith(o Options) *Scenario {
 	exp := uint64(T0 + 1000)
 	for i, u := range w.Users {
 		txs = append(txs, Transfer(w.Founder, u.Addr, Lemo(funding[i]), exp))
+	}
+	if o.FundDeputies {
+		for i, dep := range w.Deputies {
+			txs = append(txs, Transfer(w.Founder, dep.Miner.Addr, Lemo(int64(150+100*i)), exp), Transfer(w.Founder, dep.Income.Addr, Lemo(int64(199+150*i)), exp))
+		}
+		s.Gen.DeputiesAct = true
 	}
 	b := s.F.MineNext(s.F.Genesis, txs)
 	if len(b.Txs) != len(txs) {
